@@ -25,7 +25,7 @@ def load_table():
     spec = importlib.util.spec_from_file_location("manifest_table", ROOT / "tools" / "manifest_table.py")
     mod = importlib.util.module_from_spec(spec)
     spec.loader.exec_module(mod)
-    return mod.CHECKS, getattr(mod, "PENDING", {})
+    return mod.CHECKS, mod.pending()
 
 
 def main():
